@@ -58,6 +58,17 @@ func genDistinctKeys(rt *rapid.T, g *aval.Gen, t schema.Type, max int) []*aval.V
 		seen[c] = true
 		out = append(out, k)
 	}
+	// distinct keys whose 32-bit hashes collide (key types served by the generic key set): both must travel and come back
+	if t.Ref != nil && t.Ref.Name == "TString" && len(fnvCollisions()) > 0 && rapid.IntRange(0, 2).Draw(rt, "colliding_keys") == 0 {
+		pair := fnvCollisions()[rapid.IntRange(0, len(fnvCollisions())-1).Draw(rt, "collision")]
+		for _, s := range pair {
+			k := aval.Str(s)
+			if c := keyIdentity(t, k); !seen[c] {
+				seen[c] = true
+				out = append(out, k)
+			}
+		}
+	}
 	return out
 }
 
